@@ -325,6 +325,43 @@ def oracle_schedulers(ck, rng):
         sys.setswitchinterval(old)
 
 
+def oracle_batch_backing(ck, rng):
+    """a batch gives the same results whichever of its tomograms are numpy- or dask-backed, lazily or eagerly binned"""
+    import dask.array as da
+    from acryo import BatchLoader, Molecules
+    tomos = [rng.normal(size=(16, 16, 16)).astype(np.float32) + 3.0 * j for j in range(3)]
+    mols = [Molecules(rng.integers(5, 10, size=(2, 3)).astype(float) + 0.5) for _ in range(3)]
+
+    def build(backing):
+        b = BatchLoader(order=1, scale=1.0, output_shape=(2, 2, 2))
+        for j, bk in enumerate(backing):
+            b.add_tomogram(da.from_array(tomos[j], chunks=(8, 5, 16)) if bk == "da" else tomos[j], mols[j], image_id=j)
+        return b
+
+    def results(b):
+        out = [np.asarray(b.asnumpy()), np.asarray(b.average())]
+        for compute in (False, True):
+            lb = b.binning(2, compute=compute).replace(output_shape=(2, 2, 2))
+            out += [np.asarray(lb.asnumpy()), np.asarray(lb.average()), lb.apply(np.mean).to_numpy()]
+        return out
+    ref = results(build(["np", "np", "np"]))
+    import itertools
+    combos = [c for c in itertools.product(["np", "da"], repeat=3) if "da" in c]
+    for backing in (combos if ck.tier != "quick" else combos[::2] + [("np", "da", "np")]):
+        ck.oracle_count("batch_backing_matrix", 1, 1)
+        try:
+            got = results(build(list(backing)))
+            names = ["asnumpy", "average", "binning(lazy).asnumpy", "binning(lazy).average", "binning(lazy).apply", "binning(compute).asnumpy",
+                     "binning(compute).average", "binning(compute).apply"]
+            bad = [n_ for n_, x, y in zip(names, ref, got) if x.shape != y.shape or not np.allclose(x, y, atol=1e-5)]
+            detail = f"differs from the all-numpy batch in {bad}" if bad else ""
+        except Exception as e:  # noqa
+            bad, detail = ["raised"], f"raised {type(e).__name__}: {str(e)[:150]}"
+        if bad:
+            ck.violation(what=f"batch with tomograms backed by {list(backing)}: {detail}", inp={"backing": list(backing)},
+                         key={"site": "batch-backing", "what": bad[0]}, oracle="batch_backing_matrix")
+
+
 class SlowWedge:
     """a user-defined tilt model whose mask construction takes a while (I/O bound), so that several worker threads are
     inside the shared alignment model at the same time: makes interleavings on shared model state reproducible"""
@@ -412,6 +449,7 @@ def run(ck: common.Check):
     corr_shapes(ck, rng)
     oracle_schedulers(ck, rng)
     oracle_shared_state(ck, rng)
+    oracle_batch_backing(ck, np.random.default_rng(ck.seed + 101010))
 
 
 def replay_file(data):
